@@ -859,6 +859,43 @@ def rule_done(env, shared):
                               "the end flag is set in %s without evidence that the wrapped iterator is exhausted "
                               "(guards: %s): the iteration ends early and remaining elements are lost" % (
                                   env.fname(b), [x for x in txt if x[0] in ("lt", "eq", "ne", "is_some", "bool")][:4])))
+    # DONE-ORDER: the end flag is stored *before* the ticket is handed on. A store that follows the release on a path lets the
+    # next ticket holder be admitted with the flag still false: it polls the wrapped iterator again after it returned None
+    # (a non-fused source yields elements after the end), and reports the end only later. Judged in the function whose own
+    # blocks (or direct calls) contain both; a store and a release inside one loop belong to different turns.
+    for (b, sa) in T.universe:
+        evs = T.direct_events(b, sa)
+        stores = [e for e in evs if e.kind == "atomic" and e.info["op"] == "store" and T.role_of(e.info["place"])[0] == "done"
+                  and not e.body.blocks[e.bb]["cleanup"]]
+        rels = [e for e in evs if e.kind == "atomic" and e.info["op"] in ("fetch_add", "store", "swap", "fetch_max")
+                and T.role_of(e.info["place"]) == ("serving", T.adt) and not e.body.blocks[e.bb]["cleanup"]]
+        if not stores or not rels:
+            continue
+        k = "DONE-ORDER|%s" % env.fname(b)
+        bad = None
+        judged = False
+        loops = b.natural_loops()
+        for es in stores:
+            sb_ = es.info["top_bb"]
+            for er in rels:
+                rb = er.info["top_bb"]
+                if rb == sb_:
+                    continue  # inside one callee: judged there
+                if any(rb in lb and sb_ in lb for (_h, lb) in loops):
+                    continue
+                judged = True
+                tgt = b.term(rb).get("target")
+                if tgt is not None and (sb_ == tgt or sb_ in b.reachable(tgt)):
+                    bad = es
+        if not judged:
+            continue
+        if bad is not None:
+            out.append(Ob("DONE-ORDER", k, "viol", bad.loc(),
+                          "%s sets the end flag only after it has handed the ticket on: the next ticket holder is admitted with "
+                          "the flag still false and polls the wrapped iterator again after it returned None (elements of a "
+                          "non-fused source appear after the end; the end is reported late)" % env.fname(b)))
+        else:
+            out.append(Ob("DONE-ORDER", k, "ok", stores[0].loc(), "the end flag is stored before the ticket is handed on", True))
     # DONE-SET: None edge of the inner next must reach a flag store before returning
     for (b, sa) in T.universe:
         ctx = env.ctx(b, sa, T.world)
